@@ -114,7 +114,13 @@ impl Findings {
 
     /// index of the open finding that lists this violation, if any
     pub fn matches(&self, site: &str, key: &str) -> Option<usize> {
-        self.open.iter().position(|o| o.site == site && o.keys.as_ref().is_none_or(|k| k.contains(key)))
+        self.open.iter().position(|o| {
+            let site_ok = match o.site.strip_suffix('*') {
+                Some(prefix) => site.starts_with(prefix),
+                None => o.site == site,
+            };
+            site_ok && o.keys.as_ref().is_none_or(|k| k.contains(key))
+        })
     }
 }
 
@@ -307,6 +313,12 @@ impl Ctx {
         if let Some(i) = self.findings.matches(site, key) {
             *self.out.known_hits.entry(i).or_insert(0) += 1;
             return;
+        }
+        if let Ok(dir) = std::env::var("SQV_DUMP_KEYS") {
+            use std::io::Write;
+            if let Ok(mut f) = std::fs::OpenOptions::new().create(true).append(true).open(format!("{dir}/keys-{}.txt", std::process::id())) {
+                let _ = writeln!(f, "{site}\t{key}");
+            }
         }
         let n = self.out.viol_by_site.entry(site.to_string()).or_insert(0);
         *n += 1;
